@@ -191,7 +191,7 @@ func genScript0(profile string, seed int64, idx int, tier string) SScript {
 	case "c11":
 		weights = map[string]int{"w": 40, "r": 8, "d": 3, "xa": 4, "cleanup": 25, "wshort": 0, "store": 5}
 		s.Cfg.DEA = []time.Duration{0, time.Hour, 30 * time.Minute, time.Millisecond}[rng.Intn(4)]
-		s.Cfg.RealJanitor = idx%5 == 4 && idx >= 6 // (the first six are the directed scripts below, two per backend kind)
+		s.Cfg.RealJanitor = idx%5 == 4 && idx >= 9 // (the first nine are the directed scripts below, three per backend kind)
 	case "c12":
 		weights = map[string]int{"w": 50, "r": 20, "d": 2, "cleanup": 15, "store": 3, "load": 10, "xa": 1}
 		s.Cfg.CSL = uint64(rng.Intn(8))
@@ -221,17 +221,23 @@ func genScript0(profile string, seed int64, idx int, tier string) SScript {
 			s.Cfg.EF = Rat{1, 2, 0.5} // a wrongly detected breach must be visible even with a handful of entries
 		}
 	}
-	if profile == "c11" && idx < 6 && !s.Cfg.RealJanitor {
+	if profile == "c11" && idx < 9 && !s.Cfg.RealJanitor {
 		// directed regression scripts: an Unlimited cache whose entries get an expiry only through ExpireAll, then a cycle
 		// after DeleteExpiredAfter has passed (the scan must not be skipped); and never-expiring entries meeting a scanning cycle
 		s.Cfg.TTL = cache.UnlimitedTTL
 		s.Cfg.DEA = time.Millisecond
 		s.Cfg.Jitter = Rat{-1, 1, -1}
 		s.Ops = []SOp{{Kind: "w", K: 1, V: 1}, {Kind: "w", K: 2, V: 2}, {Kind: "cleanup"}}
-		if idx%2 == 0 {
+		switch idx / 3 {
+		case 0:
 			s.Ops = append(s.Ops, SOp{Kind: "xa"}, SOp{Kind: "sleep"}, SOp{Kind: "cleanup"}, SOp{Kind: "r", K: 1})
-		} else {
+		case 1:
 			s.Ops = append(s.Ops, SOp{Kind: "w", K: 3, V: 3, TTL: -hour}, SOp{Kind: "cleanup"}, SOp{Kind: "r", K: 1}, SOp{Kind: "r", K: 3})
+		default:
+			// an entry that is only recently expired when a first (scanning) cycle meets it, long expired at the second: what one
+			// cycle learns about the cache must not switch the scan off for the next
+			s.Cfg.DEA = 20 * time.Millisecond
+			s.Ops = append(s.Ops, SOp{Kind: "w", K: 3, V: 3, TTL: -1}, SOp{Kind: "cleanup"}, SOp{Kind: "sleep"}, SOp{Kind: "cleanup"}, SOp{Kind: "r", K: 3}, SOp{Kind: "r", K: 1})
 		}
 		return s
 	}
@@ -587,7 +593,11 @@ func (x *seqExec) runScript(id string, sc SScript, profile string) *seqFail {
 			for now() <= t1+2000 { // make later reads unambiguous
 			}
 		case "sleep":
-			time.Sleep(5 * time.Millisecond)
+			if d := 2*cfg.DEA + 3*time.Millisecond; cfg.DEA > 0 && d < time.Second {
+				time.Sleep(d) // (long enough for what just expired to become long expired)
+			} else {
+				time.Sleep(5 * time.Millisecond)
+			}
 		case "da":
 			b.DeleteAll(ctx)
 			x.d.Ask("be da " + id)
